@@ -118,6 +118,8 @@ impl FeoxStore {
             source = source.value_source().ok_or(FeoxError::StaleExtent)?;
         }
         let extent = source.acquire_extent().ok_or(FeoxError::StaleExtent)?;
+        #[cfg(feoxdb_verif)]
+        crate::verif::emit("pin", &source.key, extent.verif_id(), source.timestamp, 0);
         let sector = source.sector.load(Ordering::Acquire);
         if self.memory_only || sector == 0 {
             return Err(FeoxError::StaleExtent);
@@ -144,6 +146,8 @@ impl FeoxStore {
             .read();
 
         let data = disk_io.read_sectors_sync(sector, sectors_needed as u64)?;
+        #[cfg(feoxdb_verif)]
+        crate::verif::emit("pread", &source.key, sector, sectors_needed as u64, source.timestamp);
         drop(extent);
 
         if !sector_holds_record(&data, &source) {
